@@ -192,7 +192,8 @@ func Abs(ts TypeSpec, omit bool, v reflect.Value) AbsVal {
 			null = NullYes
 		}
 	case "bytes":
-		a = AbsVal{K: "bytes", S: v.Bytes()}
+		// copied: a denotation is a snapshot and must not alias the value
+		a = AbsVal{K: "bytes", S: append([]byte(nil), v.Bytes()...)}
 		if v.IsNil() {
 			null = NullYes
 		} else if v.Len() == 0 {
